@@ -156,7 +156,7 @@ def tick_checks(rep, prog, A, roles):
         st.trace, st.tags = (), {}
         a = st.objs[A.oid]
         a.cells[((), A.field_off('current_state'))] = (1, C(s))
-        lt = ('sym', 'last_ts@entry', 1, 1 << 62)
+        lt = ('sym', 'last_ts@entry', 0, 1 << 62)
         a.cells[((), A.field_off('last_ts'))] = (8, lt)
         st.tags['clkfloor.s'] = (lt,)
         # mapping->extra must point to a mapping_state
@@ -175,7 +175,7 @@ def tick_checks(rep, prog, A, roles):
         fired = 0
         for s2, _ in outs:
             # the clock reading used for the deadline test is a seconds clock; expired means some clock.s >= D
-            exp = any(s2.prove_le(D, ('sym', 'clock.s.%d' % i, 1, 1 << 63)) for i in range(s2.tags.get('clk.s', 0)))
+            exp = any(s2.prove_le(D, ('sym', 'clock.s.%d' % i, 0, 1 << 63)) for i in range(s2.tags.get('clk.s', 0)))
             if not exp:
                 a2 = s2.objs[A.oid]
                 cs = s2.dom(a2.cells[((), A.field_off('current_state'))][1])
